@@ -15119,6 +15119,15 @@ func (l *Lowerer) lowerAtomicStore(args []parser.Expr, target *[]ir.Statement) (
 	// Concretize abstract value to match the atomic's element type.
 	l.concretizeStoreValue(pointer, value)
 
+	// Flush the pending emit range so that the value (and pointer) expressions are
+	// emitted before the Store that uses them.
+	flushed := false
+	if l.emitStateStart != nil {
+		emitStart := *l.emitStateStart
+		l.emitFinish(emitStart, target)
+		flushed = true
+	}
+
 	// Rust naga emits a plain Store for atomicStore, not an Atomic statement.
 	// See naga/src/front/wgsl/lower/mod.rs around line 2895.
 	*target = append(*target, ir.Statement{
@@ -15127,6 +15136,13 @@ func (l *Lowerer) lowerAtomicStore(args []parser.Expr, target *[]ir.Statement) (
 			Value:   value,
 		},
 	})
+
+	if flushed {
+		// Restart emit tracking after the store.
+		newStart := l.currentExprIdx
+		l.emitStateStart = &newStart
+		l.currentEmitTarget = target
+	}
 
 	return l.voidCall("atomicStore") // No return value
 }
